@@ -1259,6 +1259,64 @@ def rule_monthend(cx, chk):
               'timex_date_add(%d-%02d-05, P%dM) yields %s, expected %s' % ((Y,) + (bad or (0, 0, '', ''))), fn.lineno)
 
 
+def dup_keys(d):
+    """constant keys that occur more than once in a dict literal (ast keeps both, Python keeps the last)"""
+    seen, dups = {}, []
+    for k, v in zip(d.keys, d.values):
+        if isinstance(k, ast.Constant):
+            key = (type(k.value).__name__, k.value)
+            if key in seen:
+                dups.append((k.value, ast.unparse(seen[key]), ast.unparse(v)))
+            seen[key] = v
+    return dups
+
+
+def rule_dictkeys(cx, chk):
+    """no dict literal of the datatype package repeats a constant key"""
+    n = 0
+    for name, m in sorted(cx.idx.mods.items()):
+        if not (name == PKG or name.startswith(PKG + '.')):
+            continue
+        owner = {}
+        for node in ast.walk(m.tree):
+            if isinstance(node, (ast.ClassDef, ast.FunctionDef)):
+                for ch in ast.walk(node):
+                    if isinstance(ch, ast.Dict):
+                        owner.setdefault(id(ch), []).append(node.name)
+        for node in ast.walk(m.tree):
+            if isinstance(node, (ast.Assign, ast.AnnAssign)) and isinstance(node.value, ast.Dict):
+                tg = node.targets[0] if isinstance(node, ast.Assign) else node.target
+                label = chain(tg) or ast.unparse(tg)
+            else:
+                continue
+            d = node.value
+            if not any(isinstance(k, ast.Constant) for k in d.keys):
+                continue
+            n += 1
+            dups = dup_keys(d)
+            where = '.'.join(owner.get(id(d), [])[:1] + [label])
+            chk.judge(not dups, 'C15.dictkeys', m.path, 'dict literal %s' % where,
+                      '%d constant keys' % sum(isinstance(k, ast.Constant) for k in d.keys) if not dups else
+                      'repeated: ' + ', '.join('%r (%s / %s)' % x for x in dups),
+                      'dict literal %s repeats the key %s: Python silently keeps the last value, so %r no longer maps to %s'
+                      % ((where, ', '.join(repr(x[0]) for x in dups)) + ((dups[0][0], dups[0][1]) if dups else ('', ''))),
+                      d.lineno)
+        # dict literals that are not the value of an assignment (arguments, returns)
+        assigned = {id(n2.value) for n2 in ast.walk(m.tree) if isinstance(n2, (ast.Assign, ast.AnnAssign))
+                    and isinstance(getattr(n2, 'value', None), ast.Dict)}
+        for d in ast.walk(m.tree):
+            if isinstance(d, ast.Dict) and id(d) not in assigned and any(isinstance(k, ast.Constant) for k in d.keys):
+                n += 1
+                dups = dup_keys(d)
+                where = '.'.join(owner.get(id(d), [])[:1] + ['<dict at an expression>'])
+                chk.judge(not dups, 'C15.dictkeys', m.path, 'dict literal %s' % where,
+                          'no repeated key' if not dups else 'repeated: ' + ', '.join('%r (%s / %s)' % x for x in dups),
+                          'a dict literal repeats the key %s: Python silently keeps the last value'
+                          % ', '.join(repr(x[0]) for x in dups), d.lineno)
+    ctl = ast.parse("T = {'Y': 'years', 'M': 'months', 'H': 'hours', 'M': 'minutes'}").body[0].value
+    chk.control('C15.dictkeys', dup_keys(ctl) == [('M', "'months'", "'minutes'")])
+
+
 def small_ranges(n=5):
     pairs = [(s, e) for s in range(n) for e in range(n) if s < e]
     return list(itertools.product(pairs, pairs))
@@ -1430,6 +1488,8 @@ def run(chk):
     chk.rule('C15.halfopen', 'constraint membership is start <= x < end; dates_matching_day yields exactly the matching days of [start, end) on probes', floor=5)
     chk.rule('C15.monthend', 'month_date_range / year_date_range / expand_datetime_range / timex_date_add(months) evaluated '
                              'for every month: end is the first day of the following month, year carried', floor=4)
+    chk.rule('C15.dictkeys', 'no dict literal of the datatype package repeats a constant key (the later entry silently '
+                             'replaces the earlier one)', floor=3, control=True)
     chk.rule('C15.overlap', 'is_overlapping = interval overlap, collapse_overlapping = (max start, min end), both range '
                             'types, exhaustive over a small domain', floor=6)
     chk.rule('C15.remove', 'inner_collapse removes exactly one element per removal', floor=1, control=True)
@@ -1448,4 +1508,5 @@ def run(chk):
     rule_overlap(cx, chk)
     rule_remove(cx, chk)
     rule_carry(cx, chk)
+    rule_dictkeys(cx, chk)
     chk.exhaustive = True
